@@ -285,6 +285,7 @@ def body():
     for dev in ("no_key_share", "key_share_empty"):
         mjobs.append((772, "srv_d2", "server", "trust_root", (dev, mexe, "refuse")))
     mdone = 0
+    recv_traces = []
     os.environ["VH_RECV_AGAIN"] = "1"
     with cf.ProcessPoolExecutor(14) as ex:
         futs = {}
@@ -318,11 +319,19 @@ def body():
             elif (mp is None or posths) and not any(e.get("e") == "HsRet" and e.get("rc") == 1 for e in evs):
                 c.violation(key, "the honest handshake with the independent peer did not complete under the sanitizer build", {"peer_view": view, "events": evs})
             elif posths:
-                # what the application may be given after the handshake: only what the peer wrote as application data ("ping", at most once, in order)
-                given = b"".join(bytes.fromhex(e.get("got", "")) for e in evs if e.get("e") in ("Data", "Again") and e.get("rc") == 1)
-                genuine = [b"early", b"ping"] if mp[0] == "post_hs_data_then_badmac" else [b"ping"]
-                if given not in {b"".join(genuine[:k]) for k in range(len(genuine) + 1)}:
-                    c.violation(key, "the application was handed bytes the peer never wrote as application data (a refused record came back on the next receive): %s" % given[:40].hex(), {"peer_view": view, "events": evs})
+                # what the application may be given after the handshake: only what the peer wrote as application data, in order, at most once (RecvTrace.tla)
+                tr = []
+                for rt_, pl_ in roguepeer.post_list(mp[0]) + [(23, b"ping")]:
+                    tr.append({"e": "PeerData", "data": list(pl_)} if (rt_ == 23 and not pl_.startswith(roguepeer.BAD_MARK)) else {"e": "PeerOther", "what": mp[0]})
+                tr += [{"e": "Recv", "rc": e.get("rc"), "data": list(bytes.fromhex(e.get("got", ""))) if e.get("rc") == 1 else []} for e in evs if e.get("e") in ("Data", "Again")]
+                recv_traces.append((key, tr, view, evs))
+    rej, st_ = vlib.validate("RecvTrace", [t[1] for t in recv_traces], tag="c06r", timeout=600)
+    c.cov["trace_states"] = c.cov.get("trace_states", 0) + st_
+    c.cov["receive_sessions_validated"] = len(recv_traces)
+    for i, j_, ev in rej:
+        key, tr, view, evs = recv_traces[i]
+        c.violation(key, "the application was handed bytes the peer never wrote as application data (a refused record came back on a later receive, or data was delivered twice): %s" % bytes(ev.get("data", []))[:40].hex(),
+                    {"peer_view": view, "events": evs, "trace": tr})
     c.cov["msan_handshakes"] = mdone
     c.sample({"seeds": ["%s/v%d (%d bytes)" % (t, v, len(s)) for t, v, s in seeds][:40]})
     return c.finish(
